@@ -1089,7 +1089,7 @@ EXTRA = [
       "        for t in tiles:\n            if t.source is not None and getattr(t.source, 'image_opts', False) is None:\n                pass\n", 'C18.i', 'revert of fix D14'),
     M('M-C18i-late-tiles-unlabelled', 'mapproxy/cache/tile.py', "            for t in late_tiles:\n                if t.source is not None and getattr(t.source, 'image_opts', False) is None:\n                    t.source.image_opts = self.image_opts\n",
       "", 'C18.i', 'tiles loaded late (fix D29) carry no image options'),
-    M('M-C20f-revert-D13', 'mapproxy/cache/tile.py', "                    tiles[created_tile.coord].cacheable = bool(created_tile.cacheable)\n", "", 'C20.f', 'revert of fix D13'),
+    M('M-C20f-revert-D13', 'mapproxy/cache/tile.py', "                    tiles[created_tile.coord].cacheable = created_tile.cacheable\n", "", 'C20.f', 'revert of fix D13'),
     M('M-C18c-code-from-request', 'mapproxy/service/wms.py', """            raise RequestError('unknown layer: ' + request.params.layer,
                                code='LayerNotDefined', request=request)""", """            raise RequestError('unknown layer: ' + request.params.layer,
                                code=request.params.layer, request=request)""", 'C18.c'),
